@@ -18,9 +18,16 @@ Two families of cases:
                variables have their pre-run values, re-running gives the same answers, the answers do
                not depend on how earlier runs were abandoned, and they are the answers of an
                independent reference interpreter (harness/props/c03_ref.py).
+ kind 'sweep': queries ended by RecursionError at EVERY depth (harness/props/c03_sweep.py): a recursive structure builder
+               under a top-level goal (findall with several templates, nested findall, once, call/N, negation, ...) is run
+               under every recursion limit of a window, through evaluate_bounded and through a plain loop; after every run,
+               without gc.collect, every Variable must be in its pre-run state (looked at while the caller still holds the
+               generator object and after it dropped it), the answers seen must be a prefix of the unrestricted ones, and a
+               probe query on the same engine and variables must answer as on a fresh engine.  Oracle only.
 """
 import gc, random
 from lib import terms
+from props import c03_sweep
 from lib.terms import g_term, g_list, g_pair, g_nat
 
 ID = 'C03'
@@ -31,12 +38,16 @@ THEOREMS = ['C03_unify_gen_restores', 'C03_unify_gen_close_restores', 'C03_unify
             'C03_throw_restores', 'C03_query_restores', 'C03_rerun_same', 'C03_consumer_throw_restores', 'C03_any_consumer_restores',
             'C03_compiled_query_restores', 'C03_bounded_consumer_restores', 'C03_machine_refines_irsem', 'C03_machine_refines_irsem_fuel', 'C03_machine_refines_facts', 'C03_queryF_nofacts',
             'C03_machine_refines_nquery', 'C03_machine_refines_nquery_fuel', 'C03_world_query_restores', 'C03_pyrows_realizes', 'C03_raising_predicate_realized',
-            'C03_machine_exception_passthrough', 'C03_machine_refines_nqueryE']
+            'C03_machine_exception_passthrough', 'C03_machine_refines_nqueryE',
+            'C03_findall_copy_raise_restores', 'C03_findall_copy_raise_bounded_restores', 'C03_findall_copy_raise_step',
+            'C03_delayed_close_commutes', 'C03_close_order_irrelevant']
 RULE = ("kind 'gen': non-trivial if the generator bound >= 2 cells or ran under >= 1 stacked unification, and the "
         "operation sequence abandons it at a yield (close/del after a yielding next) or resumes it. "
         "kind 'sched': non-trivial if some generator is started later than directly after its creation and >= 2 cells get bound. "
         "kind 'prog': non-trivial if the query made >= 2 bindings (>= 2 Variables bound at some answer) and "
-        "(k < #answers or the run ended by an exception). Distinct by hash of the case.")
+        "(k < #answers or the run ended by an exception). "
+        "kind 'sweep': non-trivial if >= 10 runs of the sweep were cut short by the recursion limit and the unrestricted query "
+        "binds >= 2 Variables at an answer. Distinct by hash of the case.")
 TRUSTED_BASE = [
     'Coq 8.16.1 kernel (coqc); vm_compute for the in-Coq evaluation of the UnifyGen model on every gen case',
     'no axioms: all C03 theorems are closed under the global context',
@@ -44,6 +55,9 @@ TRUSTED_BASE = [
     'and Engine/GenMachine.v (frames of emitted generator functions); UnifyGen is tied to /repo by the differential run, '
     'GenMachine by the intrinsic oracle on compiled programs (its step rules are the trusted reading of CPython for/break/return/yield/close)',
     'trusted: CPython finalises an unreferenced generator immediately (drop = close) and yield from forwards close/throw; exercised by the del / consumer-raise modes',
+    'trusted: a generator object held in a LOCAL of a frame that an exception leaves (findall: q; unify_arrays: iterators) is finalised when the '
+    'exception object and its traceback die, i.e. at the end of the except clause that handles it (evaluate_bounded: `except RuntimeError: pass`); the frame '
+    'machine closes it while the exception travels.  Tied by the recursion-limit sweeps (kind sweep), which look at the Variables directly after the handler, without gc',
     'harness: generators, drivers (harness/props/c03.py), reference interpreter (harness/props/c03_ref.py), parser of printed observations',
 ]
 ASSUMPTIONS = ['user-supplied Python predicates follow the generator discipline (bind only through unify generators they iterate) or raise',
@@ -173,6 +187,8 @@ def _model_prog(case, io):
         'true' if case.get('pyend') else 'false')
 
 def model_expr(case, io=None):
+    if case['kind'] == 'sweep':
+        return None                 # oracle-only family (the exact point of RecursionError is outside the model)
     if case['kind'] == 'sched':
         return _model_sched(case)
     if case['kind'] != 'gen':
@@ -747,6 +763,8 @@ def gen(rng, tier):
     cases = [_gen_gen_case(rng) for _ in range(ngen)]
     cases += [_gen_sched_case(rng) for _ in range(500 if tier == 'quick' else 8000)]
     cases += [_gen_prog_case(rng) for _ in range(nprog)]
+    # queries ended by RecursionError at EVERY depth (c03_sweep.py); drawn last, so the cases above are those of earlier rounds
+    cases += [{'kind': 'sweep', 'spec': c03_sweep.gen_spec(rng, tier)} for _ in range(90 if tier == 'quick' else 1500)]
     return cases
 
 def builtin_corpus():
@@ -799,10 +817,20 @@ def builtin_corpus():
         p(src4, ['wrap', [v(0)]], 1, mode, 2)
     p([['w', [V('X')], ['and', [C('d0', V('X'), V('Y')), C('d0', V('Y'), V('Z'))]]]], ['w', [v(0)]], 1, 'del', 1,
       dyn=[('d0', [a, b]), ('d0', [b, v(0)]), ('d0', [v(0), v(0)])])
-    return L + P
+    # recursion-limit sweeps: every top-level goal shape over the plainest builder, every wrapper of the recursive call under findall
+    S = []
+    base = {'n': 12, 'counter': 'peano', 'cons': 'cons', 'place': 'head', 'wrap': 'plain', 'base': 'first', 'top': 'plain',
+            'direct': False, 'via': 'both', 'lo': 3, 'step': 1, 'hi': 420, 'probe_n': 1}
+    for top in sorted(set(c03_sweep.TOPS)):
+        S.append({'kind': 'sweep', 'spec': dict(base, top=top)})
+    for wrap in sorted(set(c03_sweep.WRAPS)):
+        S.append({'kind': 'sweep', 'spec': dict(base, wrap=wrap, top='findall', direct=True, n=8, counter='list')})
+    return L + P + S
 
 def impl(case):
     try:
+        if case['kind'] == 'sweep':
+            return c03_sweep.impl(case)
         if case['kind'] == 'gen':
             return _impl_gen(case)
         if case['kind'] == 'sched':
@@ -889,6 +917,8 @@ def _compare_sched(case, io, mo):
     return None
 
 def compare(case, io, mo):
+    if case['kind'] == 'sweep':
+        return None
     if case['kind'] == 'sched':
         return _compare_sched(case, io, mo)
     if case['kind'] != 'gen':
@@ -921,6 +951,8 @@ def compare(case, io, mo):
 def oracle(case, io):
     if not isinstance(io, dict):
         return None
+    if case['kind'] == 'sweep':
+        return c03_sweep.oracle(case, io)
     if case['kind'] == 'sched':
         if io['maxyields'] > 1:
             return 'a unification generator yielded more than once'
@@ -977,6 +1009,8 @@ def oracle(case, io):
 def nontrivial(case, io):
     if not isinstance(io, dict):
         return False
+    if case['kind'] == 'sweep':
+        return c03_sweep.nontrivial(case, io)
     if case['kind'] == 'sched':
         # some generator is started after a later-created one, or not directly after its creation, and >= 2 cells get bound
         evs = case['events']
@@ -995,6 +1029,8 @@ def nontrivial(case, io):
     return io['maxbound'] >= 2 and (io['k'] < len(io['ref']) or e1.startswith('raised'))
 
 def describe(case):
+    if case['kind'] == 'sweep':
+        return c03_sweep.describe(case)
     if case['kind'] == 'sched':
         def ev(e):
             if e[0] != 'create':
@@ -1024,6 +1060,9 @@ def describe(case):
             'mode': case['mode'], 'k': case['k'], 'pyp_raises_at_call': case['j'] if case['mode'] == 'pyraise' else None}
 
 def shrink(case):
+    if case['kind'] == 'sweep':
+        yield from c03_sweep.shrink(case)
+        return
     if case['kind'] == 'sched':
         evs = case['events']
         for i in range(len(evs)):
@@ -1080,7 +1119,10 @@ def distribution(cases, obs):
          'prog_maxbound': {}, 'cyc-or-deep': 0, 'stack-fails': 0}
     def inc(m, k):
         m[str(k)] = m.get(str(k), 0) + 1
+    d.update(c03_sweep.distribution(cases, obs))
     for c, o in zip(cases, obs):
+        if c['kind'] == 'sweep':
+            continue
         if c['kind'] == 'sched':
             d['sched'] = d.get('sched', 0) + 1
             inc(d.setdefault('sched_style', {}), c.get('style'))
